@@ -166,3 +166,36 @@ Example C05_plain_header_cut_inside_the_empty_line :
   let h := [71; 69; 84; 32; 47; 10; 72; 58; 49; 10] in
   scan hinit h = None /\ header_end h [10; 80] = Some 1%nat /\ scan hinit (h ++ [10; 80]) = Some 11%nat.
 Proof. exact header_end_lf_example. Qed.
+
+(** Reads of the plain text phase stay inside one message.  The stream is ANY sequence of messages
+    header ++ body whose headers end with their first empty line ([wf_msg]), ReadRequest answering each
+    header with the length of its body ([orc_of]); [Inv s rest orc left]: [rest] has not been handed over
+    yet and [left] bytes of it belong to the part (header or body) being handed over.  It holds at the start ... *)
+Theorem C05_plain_reads_invariant_at_the_start : forall msgs,
+  Forall wf_msg msgs -> exists left, Inv pst0 (stream_of msgs) (orc_of msgs) left.
+Proof. exact inv_at_the_start. Qed.
+Print Assumptions C05_plain_reads_invariant_at_the_start.
+
+(** ... and for EVERY number [k] of bytes that have arrived by the time of a read and EVERY buffer size
+    [max], the read hands over at least one byte, none beyond the end of that part — so none of the next
+    message, which after a pair-verify finish is the encrypted stream — and the invariant holds again. *)
+Theorem C05_plain_read_stays_inside_one_message : forall s rest orc left k max,
+  Inv s rest orc left -> (0 < k)%nat -> (0 < max)%nat -> rest <> [] ->
+  let '(n, s', orc') := pm_bytes s (firstn k rest) max orc in
+  (1 <= n <= left)%nat /\ exists left', Inv s' (skipn n rest) orc' left'.
+Proof. exact pm_bytes_stays_inside. Qed.
+Print Assumptions C05_plain_read_stays_inside_one_message.
+
+Example C05_plain_reads_invariant_is_met :
+  let m1 := ([80; 32; 47; 13; 10; 13; 10], [1; 2; 3]) in let m2 := ([71; 10; 10], []) in
+  Forall wf_msg [m1; m2] /\ exists left, Inv pst0 (stream_of [m1; m2]) (orc_of [m1; m2]) left.
+Proof. exact inv_holds_somewhere. Qed.
+
+(** The same for EVERY sequence of reads [(k, max)] ([k] > 0 bytes of what is left have arrived, the buffer
+    holds [max] > 0): each read of the run starts in a state that meets the invariant and hands over between
+    one byte and what is left of the part being handed over ([all_inside], Proofs/PlainFrameProofs.v). *)
+Theorem C05_plain_reads_stay_inside_their_messages : forall msgs reads,
+  Forall wf_msg msgs -> Forall (fun km => (0 < fst km)%nat /\ (0 < snd km)%nat) reads ->
+  all_inside pst0 (stream_of msgs) (orc_of msgs) reads.
+Proof. exact reads_stay_inside_from_the_start. Qed.
+Print Assumptions C05_plain_reads_stay_inside_their_messages.
